@@ -246,7 +246,7 @@ var c03Profile = &sim.Profile{
 	W: map[string]int{
 		"login": 24, "otp_login": 6, "otp_add": 4, "recover_start": 3, "recover_end": 5, "totp_validate": 8, "sms_validate": 8,
 		"oauth_start": 4, "oauth_cb": 6, "advance": 6, "logout": 3, "visit": 12, "admin_lock": 5, "admin_unlock": 3,
-		"admin_startconfirm": 4, "confirm": 4, "register": 3, "dropsid": 2, "steal": 2, "raw": 1,
+		"admin_startconfirm": 4, "confirm": 4, "register": 3, "dropsid": 2, "steal": 2, "raw": 1, "faultnext": 3,
 	},
 	Cls: map[string]map[string]int{
 		"login":    {"ok": 55, "wrong": 35, "near": 5, "empty": 5},
